@@ -104,8 +104,11 @@ fn check() {
         }
         patterns = n;
     }
-    let ts: Vec<u64> = vec![0, 1, 2];
-    let horizon = slot * slots as u32 + Duration::from_millis(2000 + 1000 + 2500);
+    // T = 4 is there for the late bound: the check runs on a 1 s ticker, so "late" must be told apart from
+    // "one tick late" by a period that is large against the ticker (a ticker as long as the period closes a tunnel
+    // up to 2T after its last byte: with T <= 2 that hides inside the slack)
+    let ts: Vec<u64> = vec![0, 1, 2, 4];
+    let horizon = slot * slots as u32 + Duration::from_millis(4000 + 1000 + 2500);
     let rt = tokio::runtime::Builder::new_multi_thread().worker_threads(12).enable_all().build().unwrap();
     let outcomes: Vec<Outcome> = rt.block_on(async {
         let contexts: Arc<Contexts> = Default::default();
@@ -115,6 +118,10 @@ fn check() {
                 for p in &patterns {
                     // thin the T=0 and half-closed families in the quick tier
                     if !chk.thorough() && (t == 0 || pre != 0) && p.iter().enumerate().any(|(i, &e)| e != 0 && i % 2 == 1) {
+                        continue;
+                    }
+                    // T = 4: patterns with at most two bytes (thorough: three)
+                    if t == 4 && (pre != 0 || p.iter().filter(|&&e| e != 0).count() > if chk.thorough() { 3 } else { 2 }) {
                         continue;
                     }
                     hs.push(tokio::spawn(run_pattern(contexts.clone(), p.clone(), pre, t, slot, horizon)));
@@ -173,7 +180,7 @@ fn check() {
         "exhaustive": true,
         "states": distinct.len(), "transitions": n * slots as u64, "traces_validated_against_impl": n,
         "evaluations": n, "distinct_nontrivial": closed_idle.load(Ordering::Relaxed),
-        "rule": format!("all 3^{} traffic patterns over half-second slots (silent / client byte / origin byte) x T in {{0,1,2}} s x pre-state {{open, client half-closed, origin half-closed}} (quick tier thins the T=0 and half-closed families), run concurrently on the real copy_bidi with the real clock. non-trivial = tunnels closed with 'idle timeout'. states = distinct (T, pre-state, result, half-second bucket of the close time)", slots),
+        "rule": format!("all 3^{} traffic patterns over half-second slots (silent / client byte / origin byte) x T in {{0,1,2}} s (+ T = 4 s for patterns with at most 2-3 bytes, for the late bound) x pre-state {{open, client half-closed, origin half-closed}} (quick tier thins the T=0 and half-closed families), run concurrently on the real copy_bidi with the real clock. non-trivial = tunnels closed with 'idle timeout'. states = distinct (T, pre-state, result, half-second bucket of the close time)", slots),
         "patterns": n, "slots": slots,
         "samples": [{"T": 1, "pattern": [1, 0, 2, 0, 0, 0, 0], "expect": "closed between 2.0 s and 4.9 s (1 s after the origin byte at 1.0 s, plus ticker and slack)"}],
     });
@@ -182,7 +189,7 @@ fn check() {
         coverage,
         vec![
             "real clock: the early bound is hard (the proxy stamps after the harness sends; 10 ms epsilon for millisecond truncation), the late bound carries 1 s ticker + 1.5 s one-sided slack".into(),
-            "periods other than 0, 1, 2 s are not run (the code is uniform in T); the wiring of configured values is the real-binary part".into(),
+            "periods other than 0, 1, 2, 4 s are not run (the code is uniform in T); the wiring of configured values is the real-binary part".into(),
         ],
     );
 }
